@@ -215,17 +215,15 @@ func (c *Characteristic) convert(v interface{}) interface{} {
 	case FormatFloat:
 		return to.Float64(v)
 	case FormatUInt8:
-		return int(to.Uint64(v))
+		return integer(v, 0, math.MaxUint8)
 	case FormatUInt16:
-		return int(to.Uint64(v))
+		return integer(v, 0, math.MaxUint16)
 	case FormatUInt32:
-		return int(to.Uint64(v))
+		return integer(v, 0, math.MaxUint32)
 	case FormatInt32:
-		// Signed: the conversion of a negative float64 (a number sent by a controller)
-		// to an unsigned integer is not the same on every platform
-		return int(to.Int64(v))
+		return integer(v, math.MinInt32, math.MaxInt32)
 	case FormatUInt64:
-		return int(to.Uint64(v))
+		return integer(v, 0, math.MaxInt64)
 	case FormatBool:
 		return to.Bool(v)
 	case FormatString, FormatTLV8, FormatData:
@@ -233,6 +231,59 @@ func (c *Characteristic) convert(v interface{}) interface{} {
 	default:
 		return v
 	}
+}
+
+// integer converts v to an integer which is not less than min and not more than max: the range of
+// a format, as far as an int can hold it. A number sent by a controller is a float64, and what a float
+// outside of the range of an integer type is converted to depends on the platform (so does the
+// conversion of a negative float to an unsigned integer); a characteristic with an unsigned format
+// must not end up with a negative value, nor one with the format uint8 with 300.
+func integer(v interface{}, min, max int64) int {
+	if max > math.MaxInt {
+		max = math.MaxInt
+	}
+
+	var i int64
+	switch t := v.(type) {
+	case float64:
+		i = truncate(t, min, max)
+	case float32:
+		i = truncate(float64(t), min, max)
+	case uint:
+		i = max
+		if uint64(t) < uint64(max) {
+			i = int64(t)
+		}
+	case uint64:
+		i = max
+		if t < uint64(max) {
+			i = int64(t)
+		}
+	default:
+		i = to.Int64(v)
+	}
+
+	if i > max {
+		i = max
+	} else if i < min {
+		i = min
+	}
+
+	return int(i)
+}
+
+// truncate returns the integer part of f, or min or max when f is outside of them (0 for NaN).
+func truncate(f float64, min, max int64) int64 {
+	switch {
+	case f != f:
+		return 0
+	case f >= float64(max):
+		return max
+	case f <= float64(min):
+		return min
+	}
+
+	return int64(f)
 }
 
 // readPerm returns true when perms include read permission
